@@ -89,4 +89,4 @@ func WriteManifest(propsFile string) error {
 }
 
 // SourceCommits lists fix: commits made to /repo (hooks: none).
-var SourceCommits = []string{"7e360cc", "2d971c6", "fdf6baa", "5146f3f", "7079460", "6f2bd2f", "f8f47a5", "e37d1de", "017e2c3", "f4dfd6a", "3ac2ec8", "7f5b4f7", "433780d", "d98801f", "0443d55"}
+var SourceCommits = []string{"7e360cc", "2d971c6", "fdf6baa", "5146f3f", "7079460", "6f2bd2f", "f8f47a5", "e37d1de", "017e2c3", "f4dfd6a", "3ac2ec8", "7f5b4f7", "433780d", "d98801f", "0443d55", "5601cca"}
